@@ -47,7 +47,9 @@ func isoImpl(line string) string {
 		}
 		// other processes: map iteration order is seeded per process/iteration
 		if len(f) > 3 && f[3] == "procs" {
-			for i := 0; i < 3; i++ {
+			// (a table built once per process from a map has one order per process: enough processes that a
+			// two-way choice is seen both ways with probability 1 - 2^-16)
+			for i := 0; i < 16; i++ {
 				out, err := exec.Command(os.Args[0], "-isochild", f[2]).Output()
 				if err == nil {
 					for _, s := range strings.Fields(string(out)) {
@@ -186,7 +188,7 @@ func init() {
 		},
 		FindingKey:  func(line, out, clause string) string { return line },
 		Nontrivial:  func(line, out string) bool { return out != "err" },
-		Rule:        "sql levels -8..64 plus 40 random 40-bit values through ASEIsolationLevelFromGo (50 evaluations each); ASE levels -8..16 through ToGo and String (400 evaluations each in-process, plus 3 child processes x 200 for the levels marked procs); non-trivial = answer other than the error",
+		Rule:        "sql levels -8..64 plus 40 random 40-bit values through ASEIsolationLevelFromGo (50 evaluations each); ASE levels -8..16 through ToGo and String (400 evaluations each in-process, plus 16 child processes x 200 for the levels marked procs); non-trivial = answer other than the error",
 		NoShrink:    true,
 		Assumptions: []string{"Go map iteration order is unspecified (modelled as: any entry may be visited first)"},
 	})
